@@ -1054,8 +1054,11 @@ static bool canResend(ssl_t *ssl)
 
     if (ssl->flags & SSL_FLAGS_SERVER)
     {
-        if (ssl->hsState == SSL_HS_FINISHED)
-            canSend = 1;
+        /* Waiting for FINISHED is a flight boundary only for a resumed
+           handshake (tested below).  In a full handshake the server is then
+           midway through the client's flight and has nothing of its own to
+           resend: the flight it would encode from this state (CCS, FINISHED)
+           has not been sent yet and its write cipher is not set up. */
 
         if (ssl->hsState == SSL_HS_CLIENT_HELLO)
         {
